@@ -8,7 +8,7 @@ use crate::panel::UNTOUCHED;
 use crate::runner::*;
 use crate::types::*;
 use embedded_graphics_core::draw_target::DrawTarget;
-use embedded_graphics_core::geometry::{OriginDimensions, Size};
+use embedded_graphics_core::geometry::Size;
 use embedded_graphics_core::pixelcolor::{Rgb565, Rgb666, Rgb888, RgbColor};
 use embedded_graphics_core::{Drawable, Pixel};
 use mipidsi::TestImage;
@@ -18,6 +18,10 @@ use serde_json::Value;
 
 /// a plain clipping framebuffer of our own
 pub struct Canvas<C> {
+    /// top-left corner of the bounding box (draw targets need not start at the origin,
+    /// e.g. `display.clipped(&area)` or a translated target)
+    pub x0: i32,
+    pub y0: i32,
     pub w: u32,
     pub h: u32,
     pub cells: Vec<Option<C>>,
@@ -26,15 +30,18 @@ pub struct Canvas<C> {
 
 impl<C: RgbColor> Canvas<C> {
     pub fn new(w: u32, h: u32) -> Self {
-        Canvas { w, h, cells: vec![None; (w as usize) * (h as usize)], oob_attempts: 0 }
+        Canvas { x0: 0, y0: 0, w, h, cells: vec![None; (w as usize) * (h as usize)], oob_attempts: 0 }
+    }
+    pub fn at(x0: i32, y0: i32, w: u32, h: u32) -> Self {
+        Canvas { x0, y0, w, h, cells: vec![None; (w as usize) * (h as usize)], oob_attempts: 0 }
     }
     pub fn get(&self, x: u32, y: u32) -> Option<C> {
         self.cells[(y * self.w + x) as usize]
     }
 }
-impl<C: RgbColor> OriginDimensions for Canvas<C> {
-    fn size(&self) -> Size {
-        Size::new(self.w, self.h)
+impl<C: RgbColor> embedded_graphics_core::geometry::Dimensions for Canvas<C> {
+    fn bounding_box(&self) -> embedded_graphics_core::primitives::Rectangle {
+        embedded_graphics_core::primitives::Rectangle::new(embedded_graphics_core::geometry::Point::new(self.x0, self.y0), Size::new(self.w, self.h))
     }
 }
 impl<C: RgbColor> DrawTarget for Canvas<C> {
@@ -42,8 +49,9 @@ impl<C: RgbColor> DrawTarget for Canvas<C> {
     type Error = core::convert::Infallible;
     fn draw_iter<I: IntoIterator<Item = Pixel<C>>>(&mut self, pixels: I) -> Result<(), Self::Error> {
         for Pixel(p, c) in pixels {
-            if p.x >= 0 && p.y >= 0 && (p.x as u32) < self.w && (p.y as u32) < self.h {
-                self.cells[(p.y as u32 * self.w + p.x as u32) as usize] = Some(c);
+            let (x, y) = (p.x as i64 - self.x0 as i64, p.y as i64 - self.y0 as i64);
+            if x >= 0 && y >= 0 && x < self.w as i64 && y < self.h as i64 {
+                self.cells[(y as u32 * self.w + x as u32) as usize] = Some(c);
             } else {
                 self.oob_attempts += 1;
             }
@@ -64,6 +72,9 @@ pub struct SizeCase {
     pub w: u32,
     pub h: u32,
     pub colour: ColourType,
+    /// top-left corner of the target's bounding box
+    #[serde(default)]
+    pub origin: (i32, i32),
 }
 
 /// picture as classes: 0 unpainted, 1 white, 2 red, 3 green, 4 blue, 5 other
@@ -79,7 +90,11 @@ fn classify<C: RgbColor>(c: Option<C>) -> u8 {
 }
 
 fn render<C: RgbColor>(w: u32, h: u32) -> Result<Vec<u8>, String> {
-    let mut cv = Canvas::<C>::new(w, h);
+    render_at::<C>(w, h, (0, 0))
+}
+
+fn render_at<C: RgbColor>(w: u32, h: u32, origin: (i32, i32)) -> Result<Vec<u8>, String> {
+    let mut cv = Canvas::<C>::at(origin.0, origin.1, w, h);
     let r = std::panic::catch_unwind(std::panic::AssertUnwindSafe(|| TestImage::<C>::new().draw(&mut cv)));
     match r {
         Err(_) => Err(format!("TestImage panicked on a {}x{} target", w, h)),
@@ -89,10 +104,14 @@ fn render<C: RgbColor>(w: u32, h: u32) -> Result<Vec<u8>, String> {
 }
 
 fn render_ct(w: u32, h: u32, ct: ColourType) -> Result<Vec<u8>, String> {
+    render_ct_at(w, h, ct, (0, 0))
+}
+
+fn render_ct_at(w: u32, h: u32, ct: ColourType, origin: (i32, i32)) -> Result<Vec<u8>, String> {
     match ct {
-        ColourType::Rgb565 => render::<Rgb565>(w, h),
-        ColourType::Rgb666 => render::<Rgb666>(w, h),
-        ColourType::Rgb888 => render::<Rgb888>(w, h),
+        ColourType::Rgb565 => render_at::<Rgb565>(w, h, origin),
+        ColourType::Rgb666 => render_at::<Rgb666>(w, h, origin),
+        ColourType::Rgb888 => render_at::<Rgb888>(w, h, origin),
     }
 }
 
@@ -185,9 +204,16 @@ fn transform(pic: &[u8], w: u32, h: u32, g: u8) -> (Vec<u8>, u32, u32) {
 
 pub fn check(c: &SizeCase, info: &mut CaseInfo) -> Result<(), String> {
     crate::dut::install_panic_hook();
-    let pic = render_ct(c.w, c.h, c.colour)?;
+    let pic = render_ct_at(c.w, c.h, c.colour, c.origin)?;
+    if c.origin != (0, 0) {
+        info.label("non-origin-target");
+        // the picture must not depend on where the target's bounding box sits
+        if c.w as u64 * c.h as u64 <= 1 << 20 && render_ct(c.w, c.h, c.colour)? != pic {
+            return Err(format!("a {}x{} target whose bounding box starts at {:?} shows a different picture than one at the origin", c.w, c.h, c.origin));
+        }
+    }
     if c.w >= 32 && c.h >= 32 {
-        judge(&pic, c.w, c.h)?;
+        judge(&pic, c.w, c.h).map_err(|e| format!("{} (target origin {:?})", e, c.origin))?;
         // the picture differs from each of its seven rotated / mirrored versions: what a user whose
         // orientation setting is off by g would see is g applied to the image drawn for the
         // correspondingly transformed size
@@ -285,8 +311,17 @@ fn display_strategy() -> BoxedStrategy<DisplayCase> {
             let (fw, fh) = cfg.model.fb();
             cfg.w = w.min(fw);
             cfg.h = h.min(fh);
-            cfg.ox = a % (fw - cfg.w + 1);
-            cfg.oy = b % (fh - cfg.h + 1);
+            // offsets: often exactly zero or the maximum (smaller glass in a corner of the framebuffer)
+            cfg.ox = match a % 4 {
+                0 => 0,
+                1 => fw - cfg.w,
+                _ => (a / 4) % (fw - cfg.w + 1),
+            };
+            cfg.oy = match b % 4 {
+                0 => 0,
+                1 => fh - cfg.h,
+                _ => (b / 4) % (fh - cfg.h + 1),
+            };
             DisplayCase { cfg }
         })
         .boxed()
@@ -295,7 +330,15 @@ fn display_strategy() -> BoxedStrategy<DisplayCase> {
 fn size_strategy() -> BoxedStrategy<SizeCase> {
     let dim = prop_oneof![4 => 32u32..=400, 2 => 0u32..40, 1 => 400u32..=2048];
     (dim.clone(), dim, prop_oneof![Just(ColourType::Rgb565), Just(ColourType::Rgb666), Just(ColourType::Rgb888)])
-        .prop_map(|(w, h, colour)| SizeCase { w, h, colour })
+        .prop_flat_map(|(w, h, colour)| {
+            let origin = prop_oneof![
+                2 => Just((0i32, 0i32)),
+                1 => (-200i32..200, -200i32..200),
+                1 => (any::<i16>(), any::<i16>()).prop_map(|(a, b)| (a as i32 * 8, b as i32 * 8)),
+            ];
+            (Just(w), Just(h), Just(colour), origin)
+        })
+        .prop_map(|(w, h, colour, origin)| SizeCase { w, h, colour, origin })
         .boxed()
 }
 
@@ -335,12 +378,20 @@ pub fn run(ctx: &Ctx) -> Report {
     for colour in [ColourType::Rgb565, ColourType::Rgb666, ColourType::Rgb888] {
         for w in 0..=max {
             for h in 0..=max {
-                cases.push(SizeCase { w, h, colour });
+                cases.push(SizeCase { w, h, colour, origin: (0, 0) });
+            }
+        }
+    }
+    // targets whose bounding box does not start at the origin
+    for colour in [ColourType::Rgb565, ColourType::Rgb666, ColourType::Rgb888] {
+        for (i, origin) in [(5, 7), (-3, 0), (0, -9), (-40, -33), (1000, -2000), (-1, 1)].into_iter().enumerate() {
+            for (w, h) in [(32, 32), (33, 47), (64, 40), (40 + i as u32, 90), (0, 5), (7, 7), (128, 128)] {
+                cases.push(SizeCase { w, h, colour, origin });
             }
         }
     }
     for (w, h) in [(65535, 40), (40, 65535), (65535, 33), (1, 65535), (65535, 0), (3000, 2000)] {
-        cases.push(SizeCase { w, h, colour: ColourType::Rgb565 });
+        cases.push(SizeCase { w, h, colour: ColourType::Rgb565, origin: (0, 0) });
     }
     run_enumerated(&mut sec, cases, ctx.workers, check, sig);
     rep.sections.push(sec);
